@@ -270,6 +270,21 @@ Grid(bool thorough)
       if (failures > 20) goto done;
     }
   }
+  if (!thorough) {
+    // fine skew sweep (step 0.01 over [0, 3]) at two bin counts of the "n >= 1000" clause; the thorough tier sweeps every n
+    for (long long n : {1000LL, 10000LL}) {
+      for (int a = 0; a <= 300; ++a) {
+        if (a % 25 == 0) continue;
+        switch (ti++ % 4) {
+          case 0: GridCase<uint32_t>(n, a / 100.0, "u32", true); break;
+          case 1: GridCase<uint64_t>(n, a / 100.0, "u64", true); break;
+          case 2: GridCase<int32_t>(n, a / 100.0, "i32", true); break;
+          default: GridCase<int64_t>(n, a / 100.0, "i64", true); break;
+        }
+        if (failures > 20) goto done;
+      }
+    }
+  }
 done:
   std::printf("GRID cases=%ld evaluations=%ld failures=%d\n", grid_cases, grid_evals, failures);
   return failures ? 1 : 0;
